@@ -400,8 +400,8 @@ def flatHolds (st : St) : List (Nat × HoldS) :=
 
 def initSt (bpm0 : Rat) : St := ⟨[⟨bpm0, defMet, ⟨0, 0, some defMet⟩⟩], fun _ => ⟨[], []⟩⟩
 
-/-- `_read_notes` after the line loop -/
-def finishRead (g : Array Rat) (st : St) : Except Err (List HitOut × List HoldOut × List BcOff × List BcSnap) := do
+/-- `_read_notes` after the line loop, up to the timed hits and holds: `(hits, holds, timing map, tempo list)` -/
+def timedNotes (g : Array Rat) (st : St) : Except Err (List HitOut × List HoldOut × List BcOff × List BcSnap) := do
   let cs := sortBcSnap (dropOverridden st.bcsRev.reverse)
   let tm ← liftT (fromBcSnap 0 cs false)
   let hs := flatHits st
@@ -411,21 +411,47 @@ def finishRead (g : Array Rat) (st : St) : Except Err (List HitOut × List HoldO
   let headOff ← if ls.isEmpty then pure [] else liftT (offsets g tm (ls.map (·.2.head.snap)))
   let tailOff ← if ls.isEmpty then pure [] else liftT (offsets g tm (ls.map (·.2.tail)))
   let holds := (ls.zip (headOff.zip tailOff)).map (fun p => (⟨p.1.1, p.1.2.head.sample, p.2.1, p.2.2 - p.2.1⟩ : HoldOut))
+  .ok (hits, holds, tm, cs)
+
+/-- `_read_notes` after the line loop: the timed notes, then `tm.reseat()` for the tempo list -/
+def finishRead (g : Array Rat) (st : St) : Except Err (List HitOut × List HoldOut × List BcOff × List BcSnap) := do
+  let (hits, holds, tm, cs) ← timedNotes g st
   let (bco, bcs) ← liftT (bcsOfBco g tm)
   let t0 := (bco.head?.map (·.offset)).getD 0
   let tm2 ← liftT (fromBcSnap t0 bcs true)
   .ok (hits, holds, tm2, cs)
 
-/-- `BMSMap.read(lines, note_channel_config)` -/
-def read (g : Array Rat) (lay : Layout) (lines : List Bytes) : Except Err Chart := do
-  let doc ← parseDoc lines
-  let hdr ← readHeader doc.header
-  if hdr.bpm0 ≤ 0 then .error .unsupported else
-  let ctx : Ctx := ⟨lay, hdr.lnEnd, hdr.exbpms, hdr.samples⟩
-  let st ← foldlE applyEv (initSt hdr.bpm0) (events ctx doc.notes)
-  match finishRead g st with
+/-- `BMSMap.read` up to the timed hits and holds (everything but the final `tm.reseat()`) -/
+def readNotes (g : Array Rat) (lay : Layout) (lines : List Bytes) : Except Err (List HitOut × List HoldOut) :=
+  match parseDoc lines with
   | .error e => .error e
-  | .ok r => .ok ⟨hdr, r.1, r.2.1, r.2.2.1, r.2.2.2⟩
+  | .ok doc =>
+    match readHeader doc.header with
+    | .error e => .error e
+    | .ok hdr =>
+      if hdr.bpm0 ≤ 0 then .error .unsupported else
+      match foldlE applyEv (initSt hdr.bpm0) (events ⟨lay, hdr.lnEnd, hdr.exbpms, hdr.samples⟩ doc.notes) with
+      | .error e => .error e
+      | .ok st =>
+        match timedNotes g st with
+        | .error e => .error e
+        | .ok r => .ok (r.1, r.2.1)
+
+/-- `BMSMap.read(lines, note_channel_config)` -/
+def read (g : Array Rat) (lay : Layout) (lines : List Bytes) : Except Err Chart :=
+  match parseDoc lines with
+  | .error e => .error e
+  | .ok doc =>
+    match readHeader doc.header with
+    | .error e => .error e
+    | .ok hdr =>
+      if hdr.bpm0 ≤ 0 then .error .unsupported else
+      match foldlE applyEv (initSt hdr.bpm0) (events ⟨lay, hdr.lnEnd, hdr.exbpms, hdr.samples⟩ doc.notes) with
+      | .error e => .error e
+      | .ok st =>
+        match finishRead g st with
+        | .error e => .error e
+        | .ok r => .ok ⟨hdr, r.1, r.2.1, r.2.2.1, r.2.2.2⟩
 
 /-! ## writer: `BMSMap.write` -/
 
